@@ -90,26 +90,46 @@ func runC13_1(c *Ctx) {
 	nextM := p.MethodObj(Root, "redialCounter", "Next")
 	newCounter := p.MethodObj(Root, "Dialer", "newRedialCounter")
 	dialOne := p.MethodObj(Root, "Dialer", "dialOne")
-	dials := CallsTo(dwr, dialOne)
-	okLoop := len(dials) == 2
-	guarded := 0
+	dials := p.callsReaching(dwr, dialOne)
+	isDial := func(i ssa.Instruction) bool {
+		for _, d := range dials {
+			if i == ssa.Instruction(d) {
+				return true
+			}
+		}
+		return false
+	}
+	okLoop := len(dials) >= 1
+	nextTrue := map[*ssa.BasicBlock]int{}
 	for _, e := range CondCallEdges(dwr, nextM) {
 		cnt, isC := e.Recv.(*ssa.Call)
 		if !isC || CalleeObj(cnt) != newCounter {
 			okLoop = false
 			continue
 		}
-		for _, d := range dials {
-			if BlockDominatesInstr(e.True, d) {
-				guarded++
-			}
-		}
-		// when Next() is false the function returns the last error (no further dial)
-		if len(p.ReachableFromBlock(e.False, func(i ssa.Instruction) bool { return IsCallTo(i, dialOne) }, nil, nil)) > 0 {
+		// the counter is created once per dialWithRetry (not inside the retry loop)
+		if len(p.ReachableFrom(cnt, func(i ssa.Instruction) bool { return i == ssa.Instruction(cnt) }, nil, nil)) > 0 {
 			okLoop = false
 		}
+		nextTrue[e.If.Block()] = EdgeIndex(e.If.Block(), e.True)
 	}
-	c.Check(okLoop && guarded == 1, "dialWithRetry re-dials only within the budget", p.Pos(dwr.Pos()), "first dial unconditional; every further dial on the true edge of counter.Next()", "dialWithRetry re-dials outside the Next() guard of a fresh redial counter: the configured number of attempts is exceeded (or attempts never stop)")
+	if len(nextTrue) == 0 {
+		okLoop = false
+	}
+	// between two dials on any path, the true edge of counter.Next() is crossed
+	guarded := 0
+	for _, d := range dials {
+		again := p.ReachableFrom(d, isDial, nil, func(b *ssa.BasicBlock, k int) bool {
+			idx, isNext := nextTrue[b]
+			return !isNext || idx != k
+		})
+		if len(again) > 0 {
+			okLoop = false
+		}
+		guarded++
+	}
+	c.fact("path-search")
+	c.Check(okLoop && guarded >= 1, "dialWithRetry re-dials only within the budget", p.Pos(dwr.Pos()), fmt.Sprintf("%d dial site(s); from each, another dial is reachable only across the true edge of Next() on a counter created once", guarded), "dialWithRetry re-dials outside the Next() guard of a fresh redial counter: the configured number of attempts is exceeded (or attempts never stop)")
 	// the counter is created from the configured redialTimes
 	nc := p.Fn(Root, "Dialer", "newRedialCounter")
 	dN, rtIdx := p.FieldIndex(Root, "Dialer", "redialTimes")
